@@ -37,8 +37,9 @@ fn main() {
     let mut sink = common::Sink::new();
     match prop {
         "C18" => c18::run(&mut sink, thorough, seed),
-        "C01" | "C02" | "C11" | "C14" => c01::run(&mut sink, prop, thorough, seed),
-        "C09" => { c01::run(&mut sink, prop, thorough, seed); typed::run_tt3(&mut sink, thorough, seed); }
+        "C01" | "C02" | "C11" => c01::run(&mut sink, prop, thorough, seed),
+        "C14" => { c01::run(&mut sink, prop, thorough, seed); streamraw::run_c14(&mut sink, thorough, seed); }
+        "C09" => { c01::run(&mut sink, prop, thorough, seed); typed::run_tt3(&mut sink, thorough, seed); streamraw::run_c09(&mut sink, thorough, seed); }
         "C20" => {
             // number-alphabet strings for Number::from_str + accessors, typed targets, whole documents, verbatim text
             c06::run(&mut sink, thorough, seed);
@@ -56,7 +57,7 @@ fn main() {
             streamraw::raw::run_c19(&mut sink, thorough, seed);
         }
         "C06" => c06::run(&mut sink, thorough, seed),
-        "C10" => { c10::run(&mut sink, thorough, seed); typed::run_pfxs(&mut sink, thorough, seed); }
+        "C10" => { c10::run(&mut sink, thorough, seed); typed::run_pfxs(&mut sink, thorough, seed); streamraw::run_c10(&mut sink, thorough, seed); }
         "C12" => c12::run(&mut sink, thorough, seed),
         "C13" => { c13::run(&mut sink, thorough, seed); typed::run_rfaults(&mut sink, thorough, seed); }
         "C05" => { c05::run(&mut sink, thorough, seed); c01::run(&mut sink, prop, thorough, seed); }
